@@ -126,12 +126,18 @@ def install(ctx, repo, probes):
     probes.wrap(TR, "__str__", count("str.seen"))
     probes.wrap(repo.parsers.TimeRecurrenceParser, "parse",
                 count("parse.seen"))
+    # another parser object whose (public) point-parser settings were
+    # changed after construction: none of the reading parser's business
+    ctx.decoy = repo.parsers.TimeRecurrenceParser()
+    ctx.decoy.timepoint_parser.dump_format = "CCYY-MM-DD"
+    ctx.decoy.timepoint_parser.assumed_time_zone = (5, 30)
+    ctx.decoy.duration_parser = None
     ctx.rparser = repo.parsers.TimeRecurrenceParser()
     for fmt in (1, 3, 4):
         ctx.target("shift/fmt%d/single" % fmt, "shift/fmt%d/series" % fmt)
     ctx.target("sibling/repetitions", "sibling/start", "sibling/end",
                "sibling/interval", "sibling/interval-regrouped",
-               "sibling/tiny-interval",
+               "sibling/tiny-interval", "sibling/hash-collision",
                "twin/zone", "twin/representation", "twin/end-of-day",
                "twin/fraction-units",
                "twin/units", "roundtrip/fmt1", "roundtrip/fmt3",
@@ -187,6 +193,42 @@ def run_case(ctx, repo, case):
                 else:
                     ctx.cls("sibling/" + what)
                 ctx.nontrivial((dkey, "sibling", what))
+            # values whose hashes collide in CPython (hash(-1) == hash(-2),
+            # integers 2**61 - 1 apart): still different recurrences
+            mk = repo.TimePoint
+            pairs = []
+            for y1, y2 in ((-1, -2), (-2, -1)):
+                a1 = mk(year=y1, month_of_year=3, day_of_month=15,
+                        hour_of_day=6, minute_of_hour=0, second_of_minute=0,
+                        time_zone_hour=0, time_zone_minute=0)
+                a2 = mk(year=y2, month_of_year=3, day_of_month=15,
+                        hour_of_day=6, minute_of_hour=0, second_of_minute=0,
+                        time_zone_hour=0, time_zone_minute=0)
+                d1 = repo.Duration(hours=1)
+                pairs.append((repo.TimeRecurrence(repetitions=3,
+                                                  start_point=a1,
+                                                  duration=d1),
+                              repo.TimeRecurrence(repetitions=3,
+                                                  start_point=a2,
+                                                  duration=d1)))
+            anchor0 = rec._start_point if rec._start_point is not None \
+                else rec._end_point
+            pairs.append((
+                repo.TimeRecurrence(start_point=anchor0,
+                                    duration=repo.Duration(seconds=1)),
+                repo.TimeRecurrence(start_point=anchor0,
+                                    duration=repo.Duration(
+                                        seconds=1 + 2 ** 61 - 1))))
+            for a, b in pairs:
+                if (a == b) is not False or (a != b) is not True or \
+                        (b != a) is not True:
+                    ctx.violation("sibling.hash-collision", "different "
+                                  "recurrences with colliding hashes do not "
+                                  "compare unequal: %s vs %s (==: %r, !=: "
+                                  "%r)" % (_rk(a), _rk(b), a == b, a != b))
+                    break
+            else:
+                ctx.cls("sibling/hash-collision")
             # intervals at the small end of the scale: binary fractions of a
             # microsecond are still different intervals, and not "no interval"
             fmt = rec._format_number
@@ -265,6 +307,19 @@ def run_case(ctx, repo, case):
                 prob = "hash differs"
             elif _insts(mode, _series(back)) != _insts(mode, _series(rec)):
                 prob = "points differ"
+            else:
+                # the parsed recurrence is a value like any other: its own
+                # text reads back as the same recurrence again
+                try:
+                    s2 = str(back)
+                    back2 = ctx.rparser.parse(s2)
+                    if (back2 == rec) is not True or \
+                            hash(back2) != hash(rec):
+                        prob = "second generation differs: str of the " \
+                            "parsed recurrence is %r, read back as %s" % (
+                                s2, _rk(back2))
+                except Exception as exc:
+                    prob = "second generation raised %r" % (exc,)
             if prob:
                 ctx.violation("roundtrip", "parse(str(r)) for %s (text %r): "
                               "%s" % (_rk(rec), s, prob))
